@@ -171,7 +171,7 @@ def make_targets(rng, N, nc, mode="onehot", classes=None):
     return T, np.asarray(classes)
 
 
-CONTAINERS = ["np", "tf", "torch", "ds_b1", "ds_b2", "ds_b3", "ds_u1", "ds_u2", "ds_u3"]
+CONTAINERS = ["np", "tf", "torch", "ds_b1", "ds_b2", "ds_b3", "ds_u1", "ds_u2", "ds_u3", "dl_1", "dl_2", "dl_3"]
 
 
 def build_container(cont, X, L, T, bs):
@@ -195,8 +195,29 @@ def build_container(cont, X, L, T, bs):
             kw["targets_dataset"] = conv(T)
         kw["batch_size"] = bs
         return kw
-    batched = cont.startswith("ds_b")
     ncol = int(cont[-1])
+    if cont.startswith("dl_"):
+        # torch.utils.data.DataLoader (batched by construction, never shuffled): bare tensors for one column,
+        # TensorDataset tuples for (cases, labels[, targets])
+        import torch
+        from torch.utils.data import DataLoader, TensorDataset
+        tt = lambda a: torch.tensor(np.asarray(a))          # noqa: E731
+        dl = lambda *cols: DataLoader(cols[0] if len(cols) == 1 else TensorDataset(*cols),   # noqa: E731
+                                      batch_size=bs, shuffle=False)
+        if ncol == 1:
+            kw["cases_dataset"] = dl(tt(X))
+            if L is not None:
+                kw["labels_dataset"] = dl(tt(L))
+            if T is not None:
+                kw["targets_dataset"] = dl(tt(T))
+        elif ncol == 2:
+            kw["cases_dataset"] = dl(tt(X), tt(L))
+            if T is not None:
+                kw["targets_dataset"] = dl(tt(T))
+        else:
+            kw["cases_dataset"] = dl(tt(X), tt(L), tt(T))
+        return kw
+    batched = cont.startswith("ds_b")
     fin = (lambda d: d.batch(bs)) if batched else (lambda d: d)
     if ncol == 1:
         kw["cases_dataset"] = fin(ds(X))
@@ -351,6 +372,8 @@ def run_case(ctx, d):
         meth = SimilarExamples(k=k, projection=proj, case_returns=ret, distance=dist_arg, **kw)
         out = meth(Q, QT if use_targets else None)
         card = int(meth.cases_dataset.cardinality().numpy())
+        if card < 0:        # generator-backed datasets (torch DataLoader): cardinality unknown to tf.data, count the batches
+            card = sum(1 for _ in meth.cases_dataset)
         return np_out(out), int(meth.batch_size), card
 
     if finding:
@@ -477,12 +500,14 @@ def gen_one(rng, thorough, N=None, bs="rand", k=None, container=None, simple=Fal
         N = int(rng.integers(1, nmax + 1)) if rng.random() < 0.8 else int(rng.integers(1, 5))
     shape = [int(rng.integers(1, 4))] if simple else gen_shape(rng, thorough)
     nflat = int(np.prod(shape))
-    cont = container or CONTAINERS[int(rng.choice(len(CONTAINERS), p=[.3, .1, .1, .1, .1, .08, .06, .08, .08]))]
+    cont = container or CONTAINERS[int(rng.choice(len(CONTAINERS), p=[.26, .09, .09, .09, .09, .07, .05, .07, .07, .04, .04, .04]))]
     if bs == "rand":
         choices = list(range(1, N + 2))
         bs = int(choices[int(rng.integers(len(choices)))])
         if cont in ("np", "tf", "torch") and rng.random() < 0.1:
             bs = None
+        if cont.startswith("dl_") and bs is None:
+            bs = N
         if cont.startswith("ds_u") and bs > N:
             bs = N            # batch_size > N on an unbatched dataset is the separate D8 clause
     if k is None:
